@@ -32,7 +32,7 @@ type Op struct {
 	To     string `json:"to,omitempty"`
 	Binary bool   `json:"binary,omitempty"`
 	Exec   bool   `json:"exec,omitempty"`  // add only: the file is executable (mode 100755); edits and renames keep the mode
-	Chmod  bool   `json:"chmod,omitempty"` // modify only: the executable bit is flipped (Drop and Ins may both be 0 then)
+	Chmod  bool   `json:"chmod,omitempty"` // modify: the executable bit is flipped (Drop and Ins may both be 0 then); rename: the moved file's executable bit is flipped as well (never set by Gen; a check may set it on the drawn history)
 	Lines  int    `json:"lines,omitempty"`
 	DropAt int    `json:"drop_at,omitempty"`
 	Drop   int    `json:"drop,omitempty"`
@@ -57,6 +57,10 @@ type Commit struct {
 	// commits stay unreachable). It is an ordinary non-merge commit whose diff is the side lane's net change.
 	Squash bool `json:"squash,omitempty"`
 	Ops    []Op `json:"ops,omitempty"`
+	// Body: further paragraphs of the commit message (`git commit -m Subject -m Body`); `git log` with %s
+	// never prints them. Only used when Subject is not empty. Never set by Gen; a check may set it on the
+	// drawn history.
+	Body string `json:"body,omitempty"`
 }
 
 // History is the abstract operation list: the ground truth of everything derived from it.
@@ -114,8 +118,8 @@ type Entry struct {
 	Binary  bool
 	Score   int  // rename similarity percent as printed
 	Exec    bool // the created / deleted file is executable
-	// ModeChange is "100644 => 100755" (or the reverse) for a modified file whose executable bit
-	// was flipped; git adds a ` mode change` line to the summary block
+	// ModeChange is "100644 => 100755" (or the reverse) for a modified (or renamed) file whose executable
+	// bit was flipped; git adds a ` mode change` line to the summary block (without the path after a rename line)
 	ModeChange string
 }
 
@@ -343,7 +347,11 @@ func (s *state) apply(c Commit) error {
 				if conflicts(after, op.To) {
 					return fmt.Errorf("commit %d: rename target %q conflicts", idx, op.To)
 				}
-				after[op.To] = s.edit(f, op)
+				moved := s.edit(f, op)
+				if op.Chmod {
+					moved.Exec = !moved.Exec
+				}
+				after[op.To] = moved
 			default:
 				return fmt.Errorf("commit %d: unknown op %q", idx, op.Kind)
 			}
@@ -567,6 +575,9 @@ func diffTrees(before, after Tree) ([]Entry, error) {
 	for _, a := range added {
 		if src, ok := pair[a]; ok {
 			e := Entry{Kind: 'R', Old: src, New: a, Score: int(float64(score[a]) * 100 / maxScore)}
+			if before[src].Exec != after[a].Exec {
+				e.ModeChange = before[src].ModeString() + " => " + after[a].ModeString()
+			}
 			fillCounts(&e, before[src], after[a])
 			out = append(out, e)
 			continue
@@ -717,6 +728,10 @@ func Emulate(sim *Sim, hashes []string) string {
 				fmt.Fprintf(&sb, " delete mode %s %s\n", (&File{Exec: e.Exec}).ModeString(), e.Old)
 			case 'R':
 				fmt.Fprintf(&sb, " rename %s (%d%%)\n", e.Printed(), e.Score)
+				if e.ModeChange != "" {
+					// after a rename line git prints the mode change without the path
+					fmt.Fprintf(&sb, " mode change %s\n", e.ModeChange)
+				}
 			case 'M':
 				if e.ModeChange != "" {
 					fmt.Fprintf(&sb, " mode change %s %s\n", e.ModeChange, e.New)
